@@ -661,7 +661,11 @@ func runC06(c *core.Ctx) {
 	// what Close waits for is the queue: the accepted bytes are in it intact (private buffers, not recycled or
 	// rewritten while queued: C10, C17-R7), and nothing accepted bypasses it (C01-R3)
 	c.Rule("R7", "accepted payloads are in the queue Close waits for, intact: private buffers, read-only batches, no write path around the queue (shared with C10-R1/R4/R6, C17-R7, C01-R3)", 3)
-	importObligations(c, runC10, "R7", func(o *core.Obligation) bool { return o.Rule == "R1" || o.Rule == "R4" || o.Rule == "R6" })
+	importObligations(c, runC10, "R7", func(o *core.Obligation) bool {
+		// R3: a packet taken off the queue is recycled only after the batch's Writev (a sender that drains the queue
+		// into the pool makes the queue look empty to Close without having delivered anything)
+		return o.Rule == "R1" || o.Rule == "R3" || o.Rule == "R4" || o.Rule == "R6"
+	})
 	importObligations(c, runC17, "R7", func(o *core.Obligation) bool { return o.Rule == "R7" })
 	importObligations(c, runC01, "R7", func(o *core.Obligation) bool {
 		return o.Rule == "R3" && (strings.Contains(o.Key, "transport-as-writer") || strings.Contains(o.Key, "enqueuer/"))
@@ -675,6 +679,10 @@ func runC06(c *core.Ctx) {
 	importObligations(c, runC02, "R9", func(o *core.Obligation) bool { return o.Rule == "R2" || o.Rule == "R7" })
 	importObligations(c, runC01, "R9", func(o *core.Obligation) bool { return o.Rule == "R1" && strings.Contains(o.Key, "start-site") })
 	importObligations(c, runC17, "R8", func(o *core.Obligation) bool { return o.Rule == "R1" || o.Rule == "R5" })
+	// the sender stops only for a real failure and notices every one: its check helper raises for every non-nil
+	// error (C07-R4), and recycling a written buffer cannot fault (pool index guarded, C19-R1)
+	importObligations(c, runC07, "R8", func(o *core.Obligation) bool { return strings.Contains(o.Key, "/raises-on-every-error") })
+	importObligations(c, runC19, "R8", func(o *core.Obligation) bool { return o.Rule == "R1" && strings.Contains(o.Key, "index-bound") })
 }
 
 func isIntT(t types.Type) bool {
